@@ -123,7 +123,39 @@ fn class_build(c: &ClsD) -> ClassFile {
 	}
 	cf
 }
-/// `bytes`: hand the classes over as class-file bytes written by duke (`None` when duke cannot write one of them)
+// ---- the bytes variant must not get lost silently: a request-side predicate says when duke HAS to be able to write and re-read
+// the classes (every name and descriptor is plain class-file content); on such a jar a refused round trip is a failure.
+fn plain_ident(s: &str) -> bool { !s.is_empty() && s.chars().all(|c| c.is_ascii_alphanumeric() || c == '_' || c == '$') }
+fn plain_class(s: &str) -> bool { s.split('/').all(plain_ident) }
+fn plain_method_name(s: &str) -> bool { plain_ident(s) || s == "<init>" || s == "<clinit>" }
+/// one field type at the front of `b`, the rest behind it
+fn plain_type(b: &str) -> Option<&str> {
+	let t = b.trim_start_matches('[');
+	if b.len() - t.len() > 255 { return None; }
+	match t.chars().next()? {
+		'B' | 'C' | 'D' | 'F' | 'I' | 'J' | 'S' | 'Z' => Some(&t[1..]),
+		'L' => { let e = t.find(';')?; if plain_class(&t[1..e]) { Some(&t[e + 1..]) } else { None } }
+		_ => None,
+	}
+}
+fn plain_method_desc(d: &str) -> bool {
+	let Some(mut rest) = d.strip_prefix('(') else { return false };
+	loop {
+		if let Some(r) = rest.strip_prefix(')') { return r == "V" || plain_type(r) == Some(""); }
+		match plain_type(rest) { Some(r) => rest = r, None => return false }
+	}
+}
+fn plain_jar(j: &[ClsD]) -> bool {
+	j.iter().all(|c| plain_class(&c.name) && c.sup.iter().chain(c.itfs.iter()).all(|x| plain_class(x)) && c.methods.iter().all(|m| {
+		plain_method_name(&m.name) && plain_method_desc(&m.desc) && m.code.iter().flatten().all(|i| match i {
+			InsD::Inv(_, cl, n, d) => (plain_class(cl) || (cl.starts_with('[') && plain_type(cl) == Some(""))) && plain_method_name(n) && plain_method_desc(d),
+			_ => true,
+		})
+	}))
+}
+
+/// `bytes`: hand the classes over as class-file bytes written by duke (`None` when duke cannot write one of them: legitimate
+/// only outside `plain_jar`, the callers turn it into a failure inside)
 fn jar_build(j: &[ClsD], bytes: bool) -> Option<PJ> {
 	let mut entries = IndexMap::new();
 	for (i, c) in j.iter().enumerate() {
@@ -193,7 +225,7 @@ fn select_on(j: &PJ) -> anyhow::Result<Sel> {
 	let b2s = sm.bridge_to_specialized.iter().map(|(b, s)| (ref3_of(b), ref3_of(s))).collect();
 	Ok(Sel { b2s, s2b: s2b_of_debug(&format!("{sm:?}")) })
 }
-/// both representations of the jar; `Err(true)` = they disagree
+/// both representations of the jar; `Err(true)` = they disagree, `Err(false)` = duke refuses to write / re-read a jar of plain classes
 fn select(j: &[ClsD]) -> Result<Option<Sel>, bool> {
 	let Some(p) = jar_build(j, false) else { return Ok(None) };
 	let a = select_on(&p).ok();
@@ -201,7 +233,7 @@ fn select(j: &[ClsD]) -> Result<Option<Sel>, bool> {
 		let b = select_on(&v).ok();
 		let same = match (&a, &b) { (Some(x), Some(y)) => x.b2s == y.b2s && x.s2b == y.s2b, (None, None) => true, _ => false };
 		if !same { return Err(true); }
-	}
+	} else if plain_jar(j) { return Err(false); }
 	Ok(a)
 }
 
@@ -222,13 +254,26 @@ fn providers(main: &PJ, libs: &[PJ]) -> anyhow::Result<Vec<JarSuperProv>> {
 	for l in libs { v.push(l.get_super_classes_provider()?); }
 	Ok(v)
 }
-/// the remapped provider is acyclic, too (or cannot be built, in which case the real function fails before using it)
-fn remapped_acyclic(c: &Ctx, main: &PJ, libs: &[PJ]) -> bool {
-	let Ok(provs) = providers(main, libs) else { return true };
-	let (Some(o), Some(i)) = (ns_index(&c.cal, "official"), ns_index(&c.cal, "intermediary")) else { return true };
-	let Ok(rc) = c.cal.remapper_b(o, i, &provs) else { return true };
-	let Ok(x) = JarSuperProv::remap(&rc, &provs) else { return true };
-	acyclic_edges(prov_edges(&x))
+/// the provider handed to the named remapper (the jars' edges in intermediary names) is acyclic, too - decided from the request
+/// (`spec_edges_renamed`), not by building the implementation's remapped providers. When the calamus remapper cannot be built
+/// (no such namespaces, a member descriptor the descriptor rewriting refuses) the real function fails before using the provider.
+fn remapped_acyclic(c: &Ctx, all: &[&JarD]) -> bool {
+	let (Some(o), Some(i)) = (ns_pos(&c.cal, "official"), ns_pos(&c.cal, "intermediary")) else { return true };
+	let rows = srows(&c.cal);
+	if !rows.iter().all(|r| r.names[o].is_none() || r.names[i].is_none() || r.member_descs.iter().all(|d| desc_rewritable(d))) { return true; }
+	let e = spec_edges_renamed(&spec_edges(all), &spec_class_pairs(&rows, o, i));
+	acyclic_edges(e.into_iter().flatten().collect())
+}
+/// every `L` opens a non-empty class name closed by `;` (what the descriptor rewriting of the remappers insists on)
+fn desc_rewritable(d: &str) -> bool {
+	let mut it = d.chars();
+	while let Some(ch) = it.next() {
+		if ch == 'L' {
+			match it.next() { None | Some(';') => return false, Some(_) => {} }
+			if !it.by_ref().any(|x| x == ';') { return false; }
+		}
+	}
+	true
 }
 
 fn add_real(c: &Ctx, bytes: bool) -> Option<anyhow::Result<MN>> {
@@ -390,6 +435,103 @@ fn oracle_only_delegate(named_of: &dyn Fn(&Ref3) -> Option<String>, ps: &[(Ref3,
 	Ok(Ans::pass())
 }
 
+// ------------------------------------------------------------------ request-side name lookup (audit rule (ii), pattern C)
+//
+// What "the target name the mappings (through inheritance) give to the bridge" means is evaluated here from the REQUEST alone: the
+// rows of `cal` / `map` and the super-type edges of the jar descriptions. Nothing of quill/src/remapper.rs (`remapper_b`,
+// `JarSuperProv::remap`, `map_method_ref_obj`: anchored for C15) is asked, so a fault of the inherited lookup is on one side only.
+
+/// plain view of the rows of a two-namespace mapping set: class names, then (descriptor in the first namespace, method names)
+struct SRow { names: [Option<String>; 2], methods: Vec<(String, [Option<String>; 2])>, member_descs: Vec<String> }
+fn srows<Ns>(m: &Mappings<2, Ns>) -> Vec<SRow> {
+	m.classes.values().map(|c| {
+		let names: &[Option<ObjClassName>; 2] = (&c.info.names).into();
+		SRow {
+			names: [names[0].as_ref().map(|x| x.as_inner().to_string()), names[1].as_ref().map(|x| x.as_inner().to_string())],
+			methods: c.methods.values().map(|f| {
+				let ns: &[Option<MethodName>; 2] = (&f.info.names).into();
+				(f.info.desc.as_inner().to_string(), [ns[0].as_ref().map(|x| x.as_inner().to_string()), ns[1].as_ref().map(|x| x.as_inner().to_string())])
+			}).collect(),
+			member_descs: c.fields.values().map(|f| f.info.desc.as_inner().to_string()).chain(c.methods.values().map(|f| f.info.desc.as_inner().to_string())).collect(),
+		}
+	}).collect()
+}
+fn ns_pos<Ns>(m: &Mappings<2, Ns>, name: &str) -> Option<usize> {
+	let names: &[String; 2] = (&m.info.namespaces).into();
+	names.iter().position(|x| x == name)
+}
+fn spec_class_pairs(rows: &[SRow], s: usize, t: usize) -> Vec<(String, String)> {
+	rows.iter().filter_map(|r| match (&r.names[s], &r.names[t]) { (Some(a), Some(b)) => Some((a.clone(), b.clone())), _ => None }).collect()
+}
+/// the last row naming `c` in the source namespace and having a name in the target namespace wins; every other name is unchanged
+fn spec_class(pairs: &[(String, String)], c: &str) -> String {
+	pairs.iter().rev().find(|p| p.0 == c).map(|p| p.1.clone()).unwrap_or_else(|| c.to_owned())
+}
+fn spec_desc(pairs: &[(String, String)], d: &str) -> String { map_desc_with(d, &|c| spec_class(pairs, c)) }
+/// what class `c` (name in namespace `s`) itself declares for the method `(name, desc)` (both in `s`), towards `t`
+fn spec_declares(rows: &[SRow], s: usize, t: usize, c: &str, name: &str, desc: &str) -> Option<(String, String)> {
+	let row = rows.iter().rev().find(|r| r.names[s].as_deref() == Some(c) && r.names[t].is_some())?;
+	let (p0s, p0t) = (spec_class_pairs(rows, 0, s), spec_class_pairs(rows, 0, t));
+	row.methods.iter().rev().find_map(|(d0, ns)| match (&ns[s], &ns[t]) {
+		(Some(a), Some(b)) if a == name && spec_desc(&p0s, d0) == desc => Some((b.clone(), spec_desc(&p0t, d0))),
+		_ => None,
+	})
+}
+/// super-type edges, one table per jar (main jar first): `class -> [super class, interfaces…]` without repetitions; a class
+/// described twice in one jar keeps its first position and the later description
+type Edges = Vec<Vec<(String, Vec<String>)>>;
+fn dedup_first(xs: impl Iterator<Item = String>) -> Vec<String> {
+	let mut out: Vec<String> = Vec::new();
+	for x in xs { if !out.contains(&x) { out.push(x); } }
+	out
+}
+fn upsert_edge(t: &mut Vec<(String, Vec<String>)>, k: String, v: Vec<String>) {
+	match t.iter_mut().find(|e| e.0 == k) { Some(e) => e.1 = v, None => t.push((k, v)) }
+}
+fn spec_edges(jars: &[&JarD]) -> Edges {
+	jars.iter().map(|j| {
+		let mut t = Vec::new();
+		for c in j.iter() { upsert_edge(&mut t, c.name.clone(), dedup_first(c.sup.iter().cloned().chain(c.itfs.iter().cloned()))); }
+		t
+	}).collect()
+}
+/// the same edges with every class name carried over by the class renaming `pairs`
+fn spec_edges_renamed(e: &Edges, pairs: &[(String, String)]) -> Edges {
+	e.iter().map(|j| {
+		let mut t = Vec::new();
+		for (k, v) in j { upsert_edge(&mut t, spec_class(pairs, k), dedup_first(v.iter().map(|x| spec_class(pairs, x)))); }
+		t
+	}).collect()
+}
+/// the first jar that describes the class answers
+fn supers_of<'a>(e: &'a Edges, c: &str) -> Option<&'a Vec<String>> { e.iter().find_map(|j| j.iter().find(|r| r.0 == c).map(|r| &r.1)) }
+/// nearest declaring type: the class itself, then its super types in declaration order, each searched completely before the next
+/// (`depth` only bounds the walk; the hierarchies that reach this are acyclic)
+fn spec_lookup(rows: &[SRow], s: usize, t: usize, e: &Edges, c: &str, name: &str, desc: &str, depth: usize) -> Option<(String, String)> {
+	if let Some(k) = spec_declares(rows, s, t, c, name, desc) { return Some(k); }
+	if depth == 0 { return None; }
+	for p in supers_of(e, c)? {
+		if let Some(k) = spec_lookup(rows, s, t, e, p, name, desc, depth - 1) { return Some(k); }
+	}
+	None
+}
+/// a method reference carried from namespace `s` to `t`: class by the class renaming, name and descriptor by the nearest
+/// declaration, identity (with a rewritten descriptor) when there is none
+fn spec_map_ref(rows: &[SRow], s: usize, t: usize, e: &Edges, r: &Ref3) -> Ref3 {
+	let pairs = spec_class_pairs(rows, s, t);
+	let (n, d) = spec_lookup(rows, s, t, e, &r.0, &r.1, &r.2, 64).unwrap_or_else(|| (r.1.clone(), spec_desc(&pairs, &r.2)));
+	(spec_class(&pairs, &r.0), n, d)
+}
+/// pairs carried over by `inter`: a reference produced twice keeps its first position and gets the later delegate
+fn carry_pairs(ps: &[(Ref3, Ref3)], inter: &dyn Fn(&Ref3) -> Ref3) -> Vec<(Ref3, Ref3)> {
+	let mut out: Vec<(Ref3, Ref3)> = Vec::new();
+	for (b, s) in ps {
+		let (bi, si) = (inter(b), inter(s));
+		match out.iter_mut().find(|p| p.0 == bi) { Some(p) => p.1 = si, None => out.push((bi, si)) }
+	}
+	out
+}
+
 // ------------------------------------------------------------------ exec
 
 fn exec(op: &str, args: &[Sexp]) -> Ans {
@@ -399,7 +541,8 @@ fn exec(op: &str, args: &[Sexp]) -> Ans {
 			let j = tr!(jar_from(j));
 			if !acyclic(&[&j]) { return Ans::Skip("cyclic".into()); }
 			let sel = match select(&j) {
-				Err(_) => return Ans::fail("parsed-and-bytes-differ"),
+				Err(true) => return Ans::fail("parsed-and-bytes-differ"),
+				Err(false) => return Ans::fail("bytes-variant-lost"),
 				Ok(None) => return Ans::err(),
 				Ok(Some(s)) => s,
 			};
@@ -418,39 +561,35 @@ fn exec(op: &str, args: &[Sexp]) -> Ans {
 			if !acyclic(&all) { return Ans::Skip("cyclic".into()); }
 			let Some(main) = jar_build(&c.jar, false) else { return Ans::err() };
 			let Some(libs) = c.libs.iter().map(|l| jar_build(l, false)).collect::<Option<Vec<PJ>>>() else { return Ans::err() };
-			if !remapped_acyclic(&c, &main, &libs) { return Ans::Skip("cyclic".into()); }
+			if !remapped_acyclic(&c, &all) { return Ans::Skip("cyclic".into()); }
 			let Some(res) = add_real(&c, false) else { return Ans::err() };
 			if let Some(res2) = add_real(&c, true) {
 				let same = match (&res, &res2) { (Ok(x), Ok(y)) => to_sexp(x) == to_sexp(y), (Err(_), Err(_)) => true, _ => false };
 				if !same { return Ans::fail("parsed-and-bytes-differ"); }
-			}
+			} else if all.iter().all(|j| plain_jar(j)) { return Ans::fail("bytes-variant-lost"); }
 			if op == "add-specialized" {
 				return match res { Ok(r) => Ans::Ok(to_sexp(&r)), Err(_) => Ans::err() };
 			}
 			let Ok(r) = res else { return Ans::out_of_domain() };
-			// the remappers the property text speaks about, built here from the same inputs
-			let Ok(provs) = providers(&main, &libs) else { return Ans::out_of_domain() };
-			let (Some(o), Some(i)) = (ns_index(&c.cal, "official"), ns_index(&c.cal, "intermediary")) else { return Ans::out_of_domain() };
-			let Ok(rc) = c.cal.remapper_b(o, i, &provs) else { return Ans::out_of_domain() };
-			let Ok(x) = JarSuperProv::remap(&rc, &provs) else { return Ans::out_of_domain() };
-			let (Some(i2), Some(n2)) = (ns_index(&c.map, "intermediary"), ns_index(&c.map, "named")) else { return Ans::out_of_domain() };
-			let Ok(rn) = c.map.remapper_b(i2, n2, &x) else { return Ans::out_of_domain() };
-			let Ok(sm) = main.get_specialized_methods() else { return Ans::out_of_domain() };
-			let Ok(sm) = sm.remap(&rc) else { return Ans::out_of_domain() };
+			// the two renamings the property text speaks about, evaluated from the request alone (`spec_map_ref`): official ->
+			// intermediary over the jars' super-type edges, intermediary -> named over the same edges in intermediary names
+			let (Some(o), Some(i)) = (ns_pos(&c.cal, "official"), ns_pos(&c.cal, "intermediary")) else { return Ans::out_of_domain() };
+			let (Some(i2), Some(n2)) = (ns_pos(&c.map, "intermediary"), ns_pos(&c.map, "named")) else { return Ans::out_of_domain() };
+			let (cal_rows, map_rows) = (srows(&c.cal), srows(&c.map));
+			let edges_o = spec_edges(&all);
+			let edges_i = spec_edges_renamed(&edges_o, &spec_class_pairs(&cal_rows, o, i));
+			let inter = |b: &Ref3| -> Ref3 { spec_map_ref(&cal_rows, o, i, &edges_o, b) };
 			let ps: Vec<(Ref3, Ref3)> = if op == "oracle-delegate-named" {
 				// the bridge pairs of the property TEXT (`own_pairs`: the harness' own bridge predicate over the request's jar), not
 				// the pairs the implementation selected (audit rule (ii), pattern C: both would derive from one wrong selection)
-				let inter = |b: &Ref3| -> Option<Ref3> {
-					rc.map_method_ref_obj(&MethodRefObj { class: ocn(&b.0), name: mn(&b.1), desc: md(&b.2) }).ok().map(|r| ref3_of(&r))
-				};
-				match own_pairs(&c.jar, &inter) { Some(ps) => ps, None => return Ans::out_of_domain() }
+				match own_pairs(&c.jar, &|b| Some(inter(b))) { Some(ps) => ps, None => return Ans::out_of_domain() }
 			} else {
-				sm.bridge_to_specialized.iter().map(|(b, s)| (ref3_of(b), ref3_of(s))).collect()
+				// the frame statement: relative to the pairs the implementation selected (official names), carried over here
+				let Ok(sm) = main.get_specialized_methods() else { return Ans::out_of_domain() };
+				let sel: Vec<(Ref3, Ref3)> = sm.bridge_to_specialized.iter().map(|(b, s)| (ref3_of(b), ref3_of(s))).collect();
+				carry_pairs(&sel, &inter)
 			};
-			let named_of = |b: &Ref3| -> Option<String> {
-				let r = MethodRefObj { class: ocn(&b.0), name: mn(&b.1), desc: md(&b.2) };
-				rn.map_method_ref_obj(&r).ok().map(|r| r.name.as_inner().to_string())
-			};
+			let named_of = |b: &Ref3| -> Option<String> { Some(spec_map_ref(&map_rows, i2, n2, &edges_i, b).1) };
 			tr!(oracle_only_delegate(&named_of, &ps, &c.map, &r))
 		}
 		_ => Ans::BadOp("unknown op".into()),
@@ -835,6 +974,8 @@ fn emit_world(out: &mut Out, w: &World, map: Sexp) {
 	let j = jar_to(&w.main);
 	let libs = Sexp::list(w.libs.iter().map(|l| jar_to(l)).collect());
 	let cal = w.cal.to_sexp();
+	out.stats.hit(if plain_jar(&w.main) { "bytes-variant:main-jar:required" } else { "bytes-variant:main-jar:best-effort" });
+	out.stats.hit(if plain_jar(&w.main) && w.libs.iter().all(|l| plain_jar(l)) { "bytes-variant:world:required" } else { "bytes-variant:world:best-effort" });
 	out.op("bridges", &[j.clone()]);
 	out.op("s2b", &[j.clone()]);
 	out.op("oracle-bridge-iff", &[j.clone()]);
